@@ -36,25 +36,39 @@ Proof.
   rewrite E. rewrite flat_map_app. reflexivity.
 Qed.
 
+Lemma flat_map_upd_nth_eq {A C} (f : A -> list C) n (x : A) l : (n < length l)%nat ->
+  flat_map f (upd_nth n x l) = flat_map f (firstn n l) ++ f x ++ flat_map f (skipn (S n) l).
+Proof.
+  intros Hn. pose proof (upd_nth_split n x l Hn) as E.
+  remember (firstn n l) as a. remember (skipn (S n) l) as b.
+  rewrite E. rewrite flat_map_app. reflexivity.
+Qed.
+
 Lemma flat_map_upd_nth_perm {A C} (f : A -> list C) n (x d : A) l (extra : list C) :
   (n < length l)%nat -> Permutation (f x) (extra ++ f (nth n l d)) ->
   Permutation (flat_map f (upd_nth n x l)) (extra ++ flat_map f l).
 Proof.
-  intros Hn HP. rewrite (upd_nth_split n x l Hn). rewrite (flat_map_split_nth f n d l Hn).
-  rewrite !flat_map_app. simpl.
-  rewrite HP. rewrite <- !app_assoc.
-  rewrite (app_assoc extra). rewrite (app_assoc (flat_map f (firstn n l))).
-  apply Permutation_app_tail. apply Permutation_app_comm.
+  intros Hn HP.
+  pose proof (flat_map_upd_nth_eq f n x l Hn) as E1. pose proof (flat_map_split_nth f n d l Hn) as E2.
+  remember (flat_map f (firstn n l)) as a. remember (flat_map f (skipn (S n) l)) as b.
+  remember (f (nth n l d)) as y. rewrite E1, E2.
+  apply Permutation_trans with (a ++ (extra ++ y) ++ b).
+  - apply Permutation_app_head. apply Permutation_app_tail. exact HP.
+  - rewrite <- !app_assoc. rewrite (app_assoc a), (app_assoc extra).
+    apply Permutation_app_tail. apply Permutation_app_comm.
 Qed.
 
 Lemma flat_map_upd_nth_perm' {A C} (f : A -> list C) n (x d : A) l (extra : list C) :
   (n < length l)%nat -> Permutation (extra ++ f x) (f (nth n l d)) ->
   Permutation (extra ++ flat_map f (upd_nth n x l)) (flat_map f l).
 Proof.
-  intros Hn HP. rewrite (upd_nth_split n x l Hn). rewrite (flat_map_split_nth f n d l Hn).
-  rewrite !flat_map_app. simpl. rewrite <- HP. rewrite <- !app_assoc.
-  rewrite (app_assoc extra). rewrite (app_assoc (flat_map f (firstn n l))).
-  apply Permutation_app_tail. apply Permutation_app_comm.
+  intros Hn HP.
+  pose proof (flat_map_upd_nth_eq f n x l Hn) as E1. pose proof (flat_map_split_nth f n d l Hn) as E2.
+  remember (flat_map f (firstn n l)) as a. remember (flat_map f (skipn (S n) l)) as b.
+  remember (f (nth n l d)) as y. rewrite E1, E2.
+  apply Permutation_trans with ((extra ++ a) ++ f x ++ b). { rewrite <- app_assoc. reflexivity. }
+  apply Permutation_trans with ((a ++ extra) ++ f x ++ b). { apply Permutation_app_tail, Permutation_app_comm. }
+  rewrite <- !app_assoc. apply Permutation_app_head. rewrite !app_assoc. apply Permutation_app_tail. exact HP.
 Qed.
 
 Lemma in_flat_map_nth {A C} (f : A -> list C) (d : A) l y :
@@ -123,19 +137,14 @@ Proof.
     apply Permutation_cons_append.
   - assert (Hp : (pos < length l')%nat) by lia.
     rewrite nth_error_app1 in H by lia.
-    rewrite (upd_nth_split pos z l' Hp).
     destruct (nth_error_nth' _ (0%Z, 0%Z) _ _ H) as [E' _].
-    rewrite (nth_split' pos (0%Z, 0%Z) l' Hp) at 3. rewrite E'.
-    rewrite <- app_assoc. simpl.
-    apply Permutation_cons_app.
-    rewrite app_assoc. rewrite <- (Permutation_cons_append _ z). 
-    rewrite <- app_assoc. apply Permutation_sym. apply Permutation_middle.
+    pose proof (upd_nth_split pos z l' Hp) as U. pose proof (nth_split' pos (0%Z, 0%Z) l' Hp) as V.
+    rewrite E' in V.
+    remember (firstn pos l') as a. remember (skipn (S pos) l') as b.
+    rewrite U. rewrite V at 2. rewrite <- app_assoc. simpl.
+    apply Permutation_cons_app. apply Permutation_app_head. apply Permutation_cons_append.
 Qed.
 
 Lemma bremove_length pos (l : list item) x : nth_error l pos = Some x -> S (length (bremove pos l)) = length l.
 Proof. intros H. apply bremove_perm in H. apply Permutation_length in H. exact H. Qed.
 
-Lemma bremove_incl pos (l : list item) : incl (bremove pos l) l.
-Proof.
-  unfold bremove. destruct (exists_last (l:=l)) as [H|H].
-Abort.
